@@ -2,7 +2,8 @@
 //
 // A generated configuration (host pool, MaxReplica, a sequence of membership/health
 // states) is given to three independently constructed hashring.Ring objects through a
-// mutable hostlist.List stub and a healthcheck.Filter stub. For every state (the first at
+// mutable hostlist.List stub and a healthcheck.Filter stub. While a Refresh is in progress the
+// filter stub looks up a sample of shards on the ring being refreshed (probeRefresh). For every state (the first at
 // construction, the later ones through Refresh) all 65 536 shard prefixes are looked up on
 // all three rings and compared with the replica set the statement prescribes, computed
 // from a ranking that the harness derives itself (weighted rendezvous score written from
@@ -782,10 +783,13 @@ func TestProp(t *testing.T) {
 	pbt.Main(t, pbt.Spec{
 		ID: "C21",
 		Rule: "generated configuration = 1-12 distinct host:port strings, MaxReplica 1-6, a 60-digit digest suffix and 1-3 membership/health states " +
-			"(health: all, none, only 1-2 healthy, few unhealthy, random; next membership: unchanged, one removed, one added, one swapped, random); " +
+			"(health: all, none, only 1-2 healthy, few unhealthy, random; next membership: unchanged, one removed, one added, one swapped, random, every host replaced, the previously healthy hosts replaced); " +
 			"three hashring.Ring objects are built on a host-list stub and a health-filter stub (each discovers the hosts in its own map order), later states arrive through Refresh; " +
 			"in every state ALL 65536 shard prefixes are looked up on all three rings and compared with the replica set prescribed by the statement, " +
 			"computed from the harness's own weighted-rendezvous ranking (murmur3 directly, lib/hrw not used), and the three rings must agree; " +
+			"in addition, while each Refresh is in progress (from inside the health-filter stub, same goroutine) 2048 shards are looked up on the ring being refreshed: " +
+			"each result must be non-empty, duplicate-free, <= MaxReplica and within the Members() reported at that moment, and Members() plus the result must be what the statement prescribes " +
+			"for either the whole previous or the whole new membership/health state; " +
 			"evaluations = Locations calls judged; a case is non-trivial when some state has >=2 members and at least one shard whose top owners are partly or wholly unhealthy; " +
 			"distinct = distinct (members, healthy, MaxReplica) states among those",
 		Assumptions: []string{
